@@ -134,6 +134,65 @@ class Case:
         self.kind, self.req, self.call, self.inp, self.formula = kind, req, call, inp, formula
 
 
+def case_from_input(inp, F, arr):
+    """rebuild a case from the `input` dict of a violation / corpus entry (lists after a JSON round trip)"""
+    fn = inp['fn']
+    if fn == 'COUNTIF':
+        col, c = inp['range'], inp['criteria']
+        if col and isinstance(col[0], list):
+            flat = [x for row in col for x in row]
+            return Case('countif-2d', ['countif', wv(c), wflat(flat)], (lambda: F['COUNTIF'](col, c)), inp)
+        return Case('countif', ['countif', wv(c), wflat(col)],
+                    (lambda: F['COUNTIF'](arr([[x] for x in col]), c)), inp, ('COUNTIF', col, c))
+    if fn == 'COUNTIFS':
+        pairs = [(list(col), c) for col, c in inp['pairs']]
+        rest, args = [], []
+        for col, c in pairs[1:]:
+            rest += list(col) + [c]
+        for col, c in pairs:
+            args += [arr([[x] for x in col]), c]
+        return Case('countifs', ['countifs', wflat(pairs[0][0]), wv(pairs[0][1]), wflat(rest)],
+                    (lambda: F['COUNTIFS'](*args)), inp)
+    if fn == 'MATCH':
+        key, col, mt = inp['lookup'], inp['array'], inp['match_type']
+        if mt == 'default':
+            return Case('match', ['match', wv(key), wrows([[x] for x in col]), 'I:1'],
+                        (lambda: F['MATCH'](key, arr([[x] for x in col]))), inp, ('MATCH', key, col, mt))
+        return Case('match', ['match', wv(key), wrows([[x] for x in col]), wv(mt)],
+                    (lambda: F['MATCH'](key, arr([[x] for x in col]), mt)), inp, ('MATCH', key, col, mt))
+    if fn == 'VLOOKUP':
+        key, tb, col, rl = inp['lookup'], inp['table'], inp['col'], inp.get('range_lookup', False)
+        if rl == 'omitted':
+            return Case('vlookup', ['vlookup', wv(key), wrows(tb), wv(col), 'B:0'],
+                        (lambda: F['VLOOKUP'](key, arr(tb), col)), inp)
+        return Case('vlookup', ['vlookup', wv(key), wrows(tb), wv(col), 'B:1' if rl else 'B:0'],
+                    (lambda: F['VLOOKUP'](key, arr(tb), col, bool(rl))), inp,
+                    ('VLOOKUP', key, tb, col) if isinstance(col, int) and not rl else None)
+    if fn == 'CHOOSE':
+        i, vals = inp['index'], inp['values']
+        return Case('choose', ['choose', wv(i), wflat(vals)], (lambda: F['CHOOSE'](i, *vals)), inp,
+                    ('CHOOSE', i, vals) if vals and not isinstance(i, (str, bool)) else None)
+    raise ValueError(f'cannot rebuild a case from {inp!r}')
+
+
+def load_inputs(ctx):
+    """replay file (a single failing input) or the corpus of regression inputs (run first)"""
+    import json
+    out = []
+    if ctx.replay:
+        obj = json.loads(open(ctx.replay if str(ctx.replay).startswith('/') else common.VERIF / ctx.replay).read())
+        for x in (obj if isinstance(obj, list) else [obj]):
+            if isinstance(x, dict) and isinstance(x.get('input'), dict) and 'fn' in x['input']:
+                out.append(x['input'])
+        return out
+    d = common.CORPUS / 'C15'
+    if d.is_dir():
+        for f in sorted(d.glob('*.json')):
+            obj = json.loads(f.read_text())
+            out += [x['input'] if 'input' in x else x for x in (obj if isinstance(obj, list) else [obj])]
+    return out
+
+
 def gen_columns(rng, thorough):
     cols = []
     cols.append([1, 2, 2.5, 'apple', 'Apple', -1, -3, 'pear'])
@@ -142,7 +201,7 @@ def gen_columns(rng, thorough):
     cols.append([0])
     cols.append(['b'])
     cols.append([2, 2, 2, 'b', 'B', 'b'])
-    n = 400 if thorough else 26
+    n = 1200 if thorough else 26
     for _ in range(n):
         k = rng.randint(1, 8)
         mix = rng.random()
@@ -184,7 +243,8 @@ def run(ctx):
     res.rule = (
         'columns/tables up to 8x4 of numbers (ints, negative, dyadic decimals) and mixed-case texts; COUNTIF: every '
         'operator prefix x numeric/text operand and plain values on fixed + random columns, plus ALL strings of '
-        'length <= %d over "<>=-1a " as criteria on a probe column; COUNTIFS: 1-3 (range, criterion) pairs, also 2-D '
+        'length <= %d over "<>=-1a " as criteria on two probe columns (thorough: also every third string of '
+        'length 6); COUNTIFS: 1-3 (range, criterion) pairs, also 2-D '
         'and unequal lengths; MATCH: ascending/descending/unsorted columns with duplicates, keys at every position, '
         'between, below, above, absent, types 0/1/-1/default; VLOOKUP: keys at every row incl. duplicated and '
         'case-variant keys, absent keys, every column index 0..n+1, negative and fractional; CHOOSE: every index '
@@ -197,9 +257,18 @@ def run(ctx):
     def arr(rows):
         return ft.Array([list(r) for r in rows])
 
+    # ---------------------------------------------------------------- corpus / replay first
+    for inp in load_inputs(ctx):
+        inp = {k: v for k, v in inp.items() if k not in ('route', 'formula')}
+        cases.append(case_from_input(inp, F, arr))
+        res.count('corpus')
+    replay_only = bool(ctx.replay)
+
     # ---------------------------------------------------------------- regex / parser tie: all short strings
     maxlen = 5 if thorough else 4
     shorts = [''.join(t) for k in range(1, maxlen + 1) for t in itertools.product(ALPHABET, repeat=k)]
+    if replay_only:
+        shorts = []
     split_reqs = ['\t'.join(['C15', 'split', w_text(s)]) for s in shorts]
     split_resp = ctx.driver.batch(split_reqs)
     rx = xlcriteria.CRITERIA_REGEX
@@ -214,18 +283,23 @@ def run(ctx):
         res.count('regex-split')
         if real != d['impl']:
             res.drift.append({'kind': 'regex-split', 'text': s, 'impl_model': d['impl'], 'real': real})
+    if thorough and not replay_only:
+        # length 6 on the probe column, every third string
+        shorts = shorts + [''.join(t) for i, t in enumerate(itertools.product(ALPHABET, repeat=6)) if i % 3 == 0]
     for s in shorts:
         if is_datelike(py_split(s)[1]):
             # date-like operand: outside the statement and outside the model (dateutil is uninterpreted)
             res.count('excluded:datelike-operand')
             continue
         for colname, col in (('probe', PROBE_COL), ('odd', ODD_COL)):
+            if len(s) == 6 and colname == 'odd':
+                continue
             cases.append(Case('countif-short', ['countif', wv(s), wflat(col)],
                               (lambda c=col, s=s: F['COUNTIF'](arr([[x] for x in c]), s)),
                               {'fn': 'COUNTIF', 'range': col, 'criteria': s}))
 
     # ---------------------------------------------------------------- COUNTIF
-    cols = gen_columns(rng, thorough)
+    cols = [] if replay_only else gen_columns(rng, thorough)
     crits = criteria_list()
     odd = [c for c in ODD_CRITERIA if not is_datelike(py_split(c)[1])]
     for ci, col in enumerate(cols):
@@ -240,7 +314,7 @@ def run(ctx):
                               (lambda col=col, c=c: F['COUNTIF'](arr([[x] for x in col]), c)),
                               {'fn': 'COUNTIF', 'range': col, 'criteria': c}, f))
     # 2-D ranges, native lists
-    for _ in range(40 if thorough else 8):
+    for _ in range(0 if replay_only else 400 if thorough else 8):
         r, w = rng.randint(1, 4), rng.randint(2, 4)
         rows = [[rng.choice(NUM_CELLS + TXT_CELLS) for _ in range(w)] for _ in range(r)]
         c = rng.choice(crits)
@@ -250,7 +324,7 @@ def run(ctx):
                           {'fn': 'COUNTIF', 'range': rows, 'criteria': c}))
     # error cells / error criteria: outside the statement, model only
     from xlcalculator.xlfunctions import xlerrors
-    for col, c in [([1, 'E', 'a'], '>0'), ([1, 'E', 'a'], '=1'), (['E', 1, 'a'], '=1'), ([1, 'E'], 1), ([1, None, 'a', True], 0),
+    for col, c in [] if replay_only else [([1, 'E', 'a'], '>0'), ([1, 'E', 'a'], '=1'), (['E', 1, 'a'], '=1'), ([1, 'E'], 1), ([1, None, 'a', True], 0),
                    ([1, None, 'a', True], '<>1'), ([1, None, '', True], ''), ([True, False, 1], True)]:
         real_col = [xlerrors.NaExcelError() if x == 'E' else x for x in col]
         wire_col = 'A:' + ','.join('E:NA' if x == 'E' else wv(x) for x in col)
@@ -259,7 +333,7 @@ def run(ctx):
                           {'fn': 'COUNTIF', 'range': col, 'criteria': c}))
 
     # ---------------------------------------------------------------- COUNTIFS
-    npairs_runs = 6000 if thorough else 500
+    npairs_runs = 0 if replay_only else 30000 if thorough else 500
     for _ in range(npairs_runs):
         n = rng.randint(1, 8)
         k = rng.randint(1, 3)
@@ -319,7 +393,7 @@ def run(ctx):
 
     match_cols = [[10, 20, 30, 40], [10, 20, 20, 40], [1], ['apple', 'b', 'Pear', 'zed'], [1, 2, 'a', 'b'],
                   [40, 30, 20, 10], [40, 30, 30, 10], [3, 1, 2], ['b', 'a'], [2, 2, 2], [1, 3, 5, 'a', 'A', 'c']]
-    for _ in range(600 if thorough else 30):
+    for _ in range(1500 if thorough else 30):
         k = rng.randint(1, 8)
         kind = rng.choice(['asc', 'asc', 'desc', 'unsorted', 'asc-mixed', 'asc-text'])
         pool = {'asc-mixed': NUM_CELLS[:8] + TXT_CELLS, 'asc-text': TXT_CELLS}.get(kind, NUM_CELLS[:8] + [20, 30, 40])
@@ -329,7 +403,7 @@ def run(ctx):
         elif kind == 'desc':
             col.sort(key=total_key, reverse=True)
         match_cols.append(col)
-    for col in match_cols:
+    for col in ([] if replay_only else match_cols):
         keys = [k for _, k in keys_for(col)]
         match_cases(col, keys, [0, 1, -1])
         match_cases(col, keys[:3], ['default', 2, 1.0, True])
@@ -342,12 +416,12 @@ def run(ctx):
         [['x', 'y']],
         [[5, 'five', 5.5, 'V'], ['five', 5, 'x', 2.5], [5, 'again', 0, 'W']],
     ]
-    for _ in range(500 if thorough else 25):
+    for _ in range(1200 if thorough else 25):
         r, w = rng.randint(1, 8), rng.randint(1, 4)
         kpool = rng.choice([[1, 2, 3, 5, 2.5], ['a', 'b', 'A', 'pear', 'Pear'], [1, 2, 'a', 'A', 'b', 2.0]])
         tables.append([[rng.choice(kpool)] + [rng.choice(NUM_CELLS + TXT_CELLS) for _ in range(w - 1)]
                        for _ in range(r)])
-    for tb in tables:
+    for tb in ([] if replay_only else tables):
         w = len(tb[0])
         keys = list(dict.fromkeys((type(r[0]).__name__, r[0]) for r in tb))
         keys = [k for _, k in keys] + ['nokey', 77] + [k.swapcase() for _, k in keys if isinstance(k, str)]
@@ -366,8 +440,8 @@ def run(ctx):
 
     # ---------------------------------------------------------------- CHOOSE
     vpool = NUM_CELLS + TXT_CELLS
-    for n in range(0, 6):
-        for rep in range(6 if thorough else 2):
+    for n in range(0, 0 if replay_only else 6):
+        for rep in range(20 if thorough else 2):
             vals = [rng.choice(vpool) for _ in range(n)]
             idxs = list(range(-1, n + 3)) + [0.5, 0.99, 1.5, n + 0.5, n - 0.5, 254, 255, 2.0, '2', True]
             for i in idxs:
@@ -401,7 +475,7 @@ def run(ctx):
             fcases.append((c, spec))
 
     # ================================================================ the same through formulas over real ranges
-    budget = 6000 if thorough else 900
+    budget = 15000 if thorough else 900
     step = max(1, len(fcases) // budget)
     picked = fcases[::step]
     nform = 0
